@@ -126,6 +126,22 @@ def judge(desc, spec):
     return j
 
 
+def _namemode_templates():
+    """name mode, config names extending each other (exp / exp_big), one directory: constructing / inspecting / computing one
+    config never costs the other one a re-run"""
+    desc = families.namemode()
+    jf = judge(desc, None)
+    res = Result()
+    for first, second in (('exp_big', 'exp'), ('exp', 'exp_big')):
+        for mid in ([['inspect', 1]], [['value', 1, 'c']], [['inspect', 1], ['value', 1, 'a'], ['inspect', 1]]):
+            h = [['new', 0, first], ['value', 0, 'c'], ['new', 1, second]] + mid + [['restart'], ['new', 0, first], ['inspect', 0], ['value', 0, 'c'], ['value', 0, 'a'], ['new', 1, second], ['inspect', 1], ['value', 1, 'c']]
+            vs, c, ov = histories.run_history(desc, h, jf, parameter_mode=False)
+            res.add('evaluations')
+            res.add('transitions', len(h))
+            res.violations.extend(vs[:2])
+    return res
+
+
 QUICK = ['chain3', 'mount2', 'lazy', 'mem', 'empties']
 ALL = ['chain3', 'diamond', 'mount2', 'optpat', 'lazy', 'mem', 'shared', 'uses2', 'empties']
 
@@ -179,6 +195,7 @@ def run(tier, seed):
         res.add('evaluations', r.coverage.get('evaluations', 0))
         res.add('transitions', r.coverage.get('transitions', 0))
         res.violations.extend(r.violations)
+    res.merge(_namemode_templates())
     res.coverage['traces_validated_against_impl'] = res.coverage['evaluations']
     res.coverage['exhaustive'] = True
     res.coverage['rule'] = ('per world: every history over {new(slot,variant), value(slot,task), inspect(slot), restart}, two live slots, up to the stateless depth, then '
